@@ -1093,6 +1093,11 @@ _has_traits_trait(has_traits_object *obj, PyObject *args)
 
         daname2 = trait->delegate_attr_name(trait, obj, daname);
         Py_DECREF(daname);
+        if (daname2 == NULL) {
+            Py_DECREF(trait);
+            Py_DECREF(delegate);
+            return NULL;
+        }
         daname = daname2;
         Py_DECREF(trait);
         if (((delegate->itrait_dict == NULL)
